@@ -213,11 +213,18 @@ func c02R1R2(p *core.Prog, r *core.Report) {
 				continue
 			}
 			var rawStore *ssa.Store
-			for _, b := range fn.Blocks {
-				for _, in := range b.Instrs {
-					if st, ok := in.(*ssa.Store); ok {
-						if fa, ok := st.Addr.(*ssa.FieldAddr); ok && core.FieldName(fa.X.Type(), fa.Field) == "rawBody" {
-							rawStore = st
+			storeFn := fn
+			scope := map[*ssa.Function]bool{fn: true}
+			if fn.Name() == "updateDesc" {
+				scope = core.Helpers(fn, 2) // the store may live in a helper shared by the implementations
+			}
+			for _, sf := range sortedFuncs(scope) {
+				for _, b := range sf.Blocks {
+					for _, in := range b.Instrs {
+						if st, ok := in.(*ssa.Store); ok {
+							if fa, ok := st.Addr.(*ssa.FieldAddr); ok && core.FieldName(fa.X.Type(), fa.Field) == "rawBody" {
+								rawStore, storeFn = st, sf
+							}
 						}
 					}
 				}
@@ -232,15 +239,15 @@ func c02R1R2(p *core.Prog, r *core.Report) {
 			raw := rawStore.Val
 			// raw comes from json.Marshal
 			fromMarshal := false
-			for _, oc := range originCalls(raw) {
-				if cal := core.Callee(oc); cal != nil && core.IsFunc(cal, "encoding/json", "Marshal") {
+			for _, o := range core.Origins(raw, core.SliceOpts{Helpers: scope}) {
+				if o.Kind == core.OCall && o.Callee() != nil && core.IsFunc(o.Callee(), "encoding/json", "Marshal") {
 					fromMarshal = true
 				}
 			}
 			// digest from FromBytes(x), size from len(y): x and y are raw, or (signed schema1) the canonical payload
 			digOK, sizeOK := false, false
 			signed := strings.Contains(im.t.Obj().Name(), "Signed")
-			core.Calls(fn, func(c ssa.CallInstruction) {
+			core.Calls(storeFn, func(c ssa.CallInstruction) {
 				cal := core.Callee(c)
 				if cal != nil && cal.Name() == "FromBytes" {
 					arg := c.Common().Args[len(c.Common().Args)-1]
